@@ -1,5 +1,6 @@
 import Model.Record
 import Model.Compose
+import Model.WriteLoop
 /-! Line protocol: stateless operations on the pure model functions. -/
 namespace Driver
 open Model
@@ -31,6 +32,20 @@ def showPacket : Packet → String
   | .unsubscribe id fs => s!"unsubscribe {id} " ++ " ".intercalate (fs.map hexOrDash)
   | .unsuback id => s!"unsuback {id}"
   | .pingreq => "pingreq" | .pingresp => "pingresp" | .disconnect => "disconnect"
+
+def parsePolEntry (e : String) : Option WPol :=
+  match e.toList with
+  | 'o' :: _ => some ⟨0, .ok⟩
+  | 't' :: r => (String.ofList r).toNat?.map (⟨·, .timeout⟩)
+  | 'e' :: r => (String.ofList r).toNat?.map (⟨·, .hard⟩)
+  | 'c' :: r => (String.ofList r).toNat?.map (⟨·, .closed⟩)
+  | _ => none
+
+def parsePolicy (s : String) : Option (List WPol) :=
+  if s == "-" then some [] else (s.splitOn ",").mapM parsePolEntry
+
+def woutStr : WOut → String
+  | .ok => "ok" | .timeout => "timeout" | .hard => "hard" | .closed => "closed"
 
 def pureStep (f : List String) : String :=
   match f with
@@ -69,6 +84,18 @@ def pureStep (f : List String) : String :=
       | some _ => "connreq deny"
       | none => "connreq pkt " ++ hexOrDash (c.connreq cid)
     | _, _, _, _, _, _ => "bad-op connreq"
+  | ["wt", p, pol] =>
+    match ofHex p, parsePolicy pol with
+    | some pb, some po =>
+      let (c, o) := writeTo { policy := po } pb
+      s!"wt {woutStr o} log={hexOrDash c.log}"
+    | _, _ => "bad-op wt"
+  | ["wb", bufs, pol] =>
+    match (bufs.splitOn ",").mapM ofHex, parsePolicy pol with
+    | some v, some po =>
+      let (c, o) := writeBuffersTo { policy := po } v
+      s!"wb {woutStr o} log={hexOrDash c.log}"
+    | _, _ => "bad-op wb"
   | op :: _ => "bad-op " ++ op
   | [] => "bad-op"
 
